@@ -2243,6 +2243,47 @@ def _b_iter(I, args, kwargs, fr):
     raise Unsupported('iter() of %r' % (v,))
 
 
+def _flatten_lists(I, seqs, init=None):
+    """concatenation of a sequence of lists (the common ways of writing `[m for ml in X for m in ml]`)"""
+    items = I.concrete_items(seqs)
+    if items is not None:
+        parts = ([init] if init is not None else []) + list(items)
+        terms, kind = [], None
+        for it in parts:
+            t, k = I.seq_term(it)
+            if t is None:
+                continue
+            if kind is not None and k is not kind:
+                raise Unsupported('concatenation of lists of different element kinds')
+            kind = k
+            terms.append(t)
+        if not terms:
+            return I.st.new_list(None, None)
+        return I.st.new_list(terms[0] if len(terms) == 1 else z3.Concat(*terms), kind)
+    t, k = I.seq_term(seqs)
+    if k is sym.K_MD and init is None:
+        return I.st.new_list(sym.flat(t), sym.K_MDE)
+    raise Unsupported('flattening of %r' % (seqs,))
+
+
+def _b_reduce(I, args, kwargs, fr):
+    f, seqs = args[0], args[1]
+    init = args[2] if len(args) > 2 else None
+    if isinstance(f, VBuiltin) and f.name in ('operator.iconcat', 'operator.add', 'operator.concat'):
+        if f.name == 'operator.iconcat' and init is None:
+            # iconcat extends its first operand IN PLACE; without an initial value that operand is the first list of the
+            # iterated sequence -- an existing object that other holders (the emitter, sibling nodes, the user) still refer to
+            I.oblige('C10.a_list_received_from_elsewhere_is_not_extended_in_place', z3.BoolVal(False), kind='callsite',
+                     note='functools.reduce(operator.iconcat, X) without an initial list extends X[0] in place')
+            I.st.obligations[-1].props = ['C10', 'C05', 'C04']
+        return _flatten_lists(I, seqs, init)
+    raise Unsupported('functools.reduce with this function')
+
+
+def _b_chain_from_iterable(I, args, kwargs, fr):
+    return _flatten_lists(I, args[0])
+
+
 def _b_not_impl(name):
     def f(I, args, kwargs, fr):
         h = I.spec_funcs.get('builtin_' + name)
@@ -2337,6 +2378,7 @@ BUILTINS = {
     'set': _b_set, 'dict': _b_dict, 'enumerate': _b_not_impl('enumerate'),
     'time': _b_not_impl('time'), 'zip': _b_not_impl('zip'), 'sum': _b_not_impl('sum'),
     'str': _b_not_impl('str'), 'iter': _b_iter, 'id': _b_not_impl('id'),
+    'functools.reduce': _b_reduce, 'itertools.chain.from_iterable': _b_chain_from_iterable,
     'hasattr': _b_not_impl('hasattr'), 'super': None, '__builtins__': None,
     'ValueError': None, 'KeyError': None, 'IndexError': None, 'TypeError': None,
     'RuntimeError': None, 'StopIteration': None, 'Exception': None, 'AssertionError': None,
